@@ -28,6 +28,7 @@ import (
 	"github.com/sanonone/kektordb/internal/verif/explore"
 	"github.com/sanonone/kektordb/internal/verif/shim/vsched"
 	"github.com/sanonone/kektordb/internal/verif/vk"
+	"github.com/sanonone/kektordb/pkg/core"
 	"github.com/sanonone/kektordb/pkg/core/distance"
 	"github.com/sanonone/kektordb/pkg/engine"
 )
@@ -571,7 +572,11 @@ type scen struct {
 func all() []scen {
 	ab := setupOpt{vectors: []string{"a", "b"}}
 	abc := setupOpt{vectors: []string{"a", "b", "c"}}
+	xa, xb, xc := crossedIDs()
+	crossed := setupOpt{vectors: []string{xa, xb, xc}}
 	return []scen{
+		{"link-ab-vs-link-ba", ab, []explore.Thread{link("l1", "a", "b"), link("l2", "b", "a")}, nil},
+		{"link-vs-link-crossed-shards", crossed, []explore.Thread{link("l1", xa, xb), link("l2", xc, xa)}, nil},
 		{"reinforce-vs-reinforce", ab, []explore.Thread{reinforce("r1", "a"), reinforce("r2", "a")}, oracleReinforce([]string{"a"}, 2)},
 		{"reinforce-vs-setmeta", ab, []explore.Thread{reinforce("r1", "a"), setMeta("m1", "a", "x")}, func(w *world) (string, string) {
 			if k, d := oracleReinforce([]string{"a"}, 1)(w); k != "" {
@@ -605,6 +610,31 @@ func all() []scen {
 		{"kv-set-vs-snapshot", setupOpt{}, []explore.Thread{kvSetter("s", "k", "v1", "v2"), snapshotter("sn")}, oracleRegister("k", "<absent>")},
 		{"delete-vs-link", abc, []explore.Thread{deleter("del", "b"), link("l", "a", "b")}, nil},
 	}
+}
+
+// crossedIDs returns three vector ids a, b, c whose graph keys ("i::<id>") satisfy
+// key(c) < key(a) < key(b) and shard(c) == shard(b) != shard(a): with them "link a->b" takes the
+// shards of a and b, "link c->a" the shards of c (= b's) and a — any lock order that is not the
+// shard-index order (by id, by role) takes them in opposite orders in the two calls.
+func crossedIDs() (a, b, c string) {
+	ids := []string{}
+	for i := 0; i < 400; i++ {
+		ids = append(ids, fmt.Sprintf("n%04d", i))
+	}
+	sh := func(id string) uint32 { return core.GetShardIndex("i::" + id) }
+	for _, x := range ids {
+		for _, y := range ids {
+			if !(x < y) || sh(x) == sh(y) {
+				continue
+			}
+			for _, z := range ids {
+				if z < x && sh(z) == sh(y) {
+					return x, y, z
+				}
+			}
+		}
+	}
+	return "a", "b", "c"
 }
 
 func schedFilter(kind, site string) bool {
